@@ -147,6 +147,8 @@ class LenClass:
         return False
 
     def of(self, n: Node) -> tuple:
+        if n is None:
+            return TOP          # a value the caller could not identify: unknown population
         c = self.memo.get(n.id)
         if c is not None:
             return c
